@@ -1,32 +1,56 @@
 """C15 - Disassembling and re-assembling reproduces the original bytes.
 
-Specification: spec/Dasm.tla = the worklist tracer of /repo/das.c main (entry-address queue with the
-"preferred next address" rule of entryaddress.c, code chunks, data chunks; PopEntry, DecodeAt, MarkCode,
-EnqueueSuccessors, Step, Run) over an ISA table (spec/Isa4004.tla, spec/Isa6800.tla: length + successor set of
-every instruction: fall-through, branch target, call target + return, none after return / jump / indirect
-jump), next to the declarative reachability closure (ReachStarts / ReachBytes).
+Specification:
+  spec/Dasm.tla      the tracer of /repo/das.c main as a worklist machine over an ISA table: entry-address queue with
+                     the "preferred next address" rule of entryaddress.c, code chunks, data chunks; operators PopEntry,
+                     DecodeAt (length + successor set from the table: fall-through, branch target, call target +
+                     return, none after return / jump / indirect jump), MarkCode, EnqueueSuccessors, Step, Run; next to
+                     it the declarative reachability closure ReachStarts / ReachBytes.  Deviations of the code are named,
+                     not idealised: SkipTargetInsideCode, ZeroLengthOutside, VectorNotChecked.
+  spec/Isa4004.tla, spec/Isa6800.tla   the ISA tables (shared with C14)
+  spec/Dasm_MC.tla   (M) exhaustive over all small images;  spec/Dasm_Gen.tla, spec/Dasm_Cover.tla  (G) image generators
 
-(M) Dasm_MC (TLC, exhaustive over all small images, see the .cfg headers): termination (liveness + step bound),
-    InsideImage, code = subset of Reach, code = Reach for non-overlapping code, CodeDataDisjoint when data is
-    not reachable as code, Run = machine, and Encode(Decode(bytes)) = bytes; Dasm_RT_* puts EVERY byte value
-    0..255 into the opcode cell (every opcode of the table x operand bytes {00,12,7F,80,FF}).
-    The 6800 table itself is validated against the assembler with the C14 machinery (Isa6800_Gen: every form x
-    operand classes assembled by asl).
-(G) Dasm_Gen (TLC -simulate): valid instruction streams (every form of the table, operand pools, branches and
-    calls to instruction items, embedded data only behind non-falling-through instructions, 6800: 2-byte
-    vectors used as indirect entry addresses) + 1..4 entry addresses; TLC prints the image (Encode), the entries
-    and the areas the worklist model marks.  The harness writes the image as a binary and as an Intel-hex file,
-    runs the real dasl on both, feeds stdout (prefixed only by `cpu <name>`) to the real asl -> p2bin and compares
-    bytes over the areas dasl lists as disassembled.
+(M) TLC, all images of 3 (thorough: 4) cells with representative bytes, 1..2 entry addresses incl. the address behind
+    the image, 6800 with an optional vector: termination (liveness `<>Done` and a step bound), InsideImage, marked code
+    is a subset of Reach, = Reach for non-overlapping code (without that premise TLC finds the counterexample
+    `14 41 00 00`, entry 257: a successor inside an already marked instruction is never queued), code/data disjoint
+    when data is unreachable, recursive Run = machine, and Encode(Decode(bytes)) = bytes; Dasm_RT_*.cfg put EVERY byte
+    value 0..255 into the opcode cell with operand bytes {00,12,7F,80,FF}.  The 6800 table itself is validated against
+    asl with the C14 machinery (Isa6800_Gen: every form x operand classes).
+(G) Dasm_Gen (TLC -simulate): valid instruction streams (forms of the table drawn by category, operand pools, branches
+    and calls to instruction items, embedded data only behind non-falling-through instructions, 6800: 2-byte vectors
+    as indirect entries, 1..4 entries); Dasm_Cover: one image per opcode high nibble with EVERY falling-through
+    instruction variant (form x register/condition value) + one image per jump/return variant, so that every opcode
+    of both tables is round-tripped in every run.  TLC prints the image (Encode), the entries and the areas the
+    worklist model marks.  The harness writes the image as a binary and as an Intel-hex file, runs the real dasl on
+    both (and on every 10th image additionally with `-entryaddress <addr>,<name>`), feeds stdout - prefixed only by
+    `cpu <name>` - to the real asl -> p2bin and compares bytes over the areas dasl lists as disassembled.
     Verdict-bearing: dasl ends normally; -binfile and -hexfile give the same text; asl accepts the text; bytes
-    identical over the listed areas; listed code and data areas disjoint and inside the image.
-    SPEC-DRIFT only (finer prediction): listed areas = areas marked by the Dasm model (= Reach).
-87C800: no TLA+ table.  Images are assembled from the golden tests/t_87c800 source (whole program and
-    instruction-wise slices), entry = start; round trip + disjoint/inside checks, NO spec-side reachability
-    oracle.
+    identical over the listed areas; listed code and data areas disjoint and inside the image.  When asl rejects the
+    text, the cause is classified from the failing line and (diagnosis only) repaired so that the remaining checks
+    still run; every cause is a separate finding key.
+    SPEC-DRIFT only: listed areas = areas marked by the Dasm model (deco68 stops behind clv/sev/txs/lds/sts ext).
+87C800: no TLA+ table.  Images are assembled from the golden tests/t_87c800 source (whole program and 12-instruction
+    slices, entry = first address); round trip + disjoint/inside checks, NO reachability oracle; an image whose
+    branches leave the image is outside the property's domain and not judged.
 
-NOT covered: CPU names dasl knows but asl does not (6802); -symbol; LSB vectors; images with several chunks;
-forced extended addressing of page-0 operands on the 6800 (the table pairs direct/extended by operand value).
+quick: 2 x 2 x 150 simulated traces + 44 coverage images + 21 golden 87C800 images; thorough: 2 x 4 x 5000 traces and
+4-cell exhaustive models.
+
+NOT covered: CPU name 6802 (dasl knows it, asl does not); -symbol; LSB vectors; images with several chunks; forced
+extended addressing of page-0 operands on the 6800; vectors on the 4004 (dasl prints `dw`, unknown to that target);
+robustness on invalid input (a vector that leaves the image makes dasl print forever: dasl always runs under a
+timeout and an output limit here).
+
+Findings on the pinned tree (known_findings/C15.json, diffs in proposed_fixes/): `org $hex` headers rejected for
+4004/87C800; vector message printed to stdout; named direct entry refused; 87C800 label `h` suffix and
+register-prefixed ALU immediate without `h`; 6800 `dess`; 4004 JIN falls through into data; 4004 ISZ page rule.
+
+Mutations tried on a scratch copy containing the proposed fixes (`VERIF_REPO=... ./check C15`), all reported:
+  deco68.c mnemonic of 4C inca->deca (bytes differ); deco68.c branch target pc+2 -> pc+1 (undefined label);
+  deco4004.c FIM pair number (bytes differ); das.c hex loader start +1 (hex/bin differ); das.c code chunk length +1
+  (rejected); code68.c TAB opcode 16 -> 17 (assembler side: bytes differ; fails 1 ctest); deco68.c extended operand
+  byte order (undefined label).
 """
 import os
 import re
@@ -147,6 +171,16 @@ def judge_image(rep, bld, im, dcpu, aslcpu, oracle=True):
         tried += 1
         n, line = failing_line(msgs, text, aslcpu)
         cause = cause_of(line) if line else "unknown"
+        if oracle and n is not None and "stopends" in im:
+            # the rejected line lies in an area the Dasm model does not mark as code and that starts directly behind
+            # a reachable indirect jump: the real tracer fell through an unconditional jump into data
+            fa = dasm.addr_of_line(text, n)
+            if fa is not None and fa not in set(im["code"]):
+                lo = fa
+                while lo - 1 in code and lo - 1 not in set(im["code"]):
+                    lo -= 1
+                if lo in set(im["stopends"]):
+                    cause = "traced-into-data-behind-indirect-jump"
         rep.violation("%s: asl rejects the disassembly (cause %s): line '%s': %s"
                       % (im["isa"], cause, line.strip()[:60], " | ".join(msgs.strip().splitlines()[:2])[:200]),
                       case=im, files=dict(files, **{"reasm.asm": "\tcpu\t%s\n%s" % (aslcpu, text)}),
@@ -231,9 +265,24 @@ def main(tier):
     cfgs = ["Dasm_MC.cfg", "Dasm_MC_6800.cfg", "Dasm_RT_4004.cfg", "Dasm_RT_6800.cfg"]
     if not quick:
         cfgs += ["Dasm_MC4.cfg", "Dasm_MC4_6800.cfg"]
-    with Phase("TLC: %d Dasm_MC configurations" % len(cfgs)):
-        runs = pmap(lambda c: tlc.run("Dasm_MC", c, workers=2, timeout=2400, mem="6g", collect=False), cfgs,
-                    workers=min(4, NCPU))
+    n = 150 if quick else 5000
+    gens = [("4004", "Dasm_Gen_4004.cfg", 11, "4004", "4004"), ("6800", "Dasm_Gen_6800.cfg", 13, "6800", "6800")]
+    covs = [("4004", "Dasm_Cover_4004.cfg"), ("6800", "Dasm_Cover_6800.cfg")]
+
+    def tlc_task(t):
+        if t[0] == "mc":
+            return tlc.run("Dasm_MC", t[1], workers=2, timeout=2400, mem="6g", collect=False)
+        if t[0] == "gen":
+            g = t[1]
+            return tlc.run("Dasm_Gen", g[1], workers=2 if quick else 4, simulate=n, depth=g[2], deadlock=True,
+                           timeout=2400, mem="6g", tags=("BEH",))
+        return tlc.run("Dasm_Cover", t[1][1], workers=1, deadlock=True, timeout=900, mem="4g", tags=("BEH", "BAD"))
+    tasks = [("mc", c) for c in cfgs] + [("gen", g) for g in gens] + [("cov", c) for c in covs]
+    with Phase("TLC: %d Dasm_MC configurations, %d generators" % (len(cfgs), len(gens) + len(covs))):
+        allruns = pmap(tlc_task, tasks, workers=min(5, NCPU))
+    runs = allruns[:len(cfgs)]
+    sims = allruns[len(cfgs):len(cfgs) + len(gens)]
+    covruns = allruns[len(cfgs) + len(gens):]
     for c, r in zip(cfgs, runs):
         tlc.must(r, "Dasm_MC(%s)" % c)
         if r.violation:
@@ -261,12 +310,20 @@ def main(tier):
             rep.drift("Isa6800 table vs asl: %d statements differ (%s) - encoding findings, not C15 verdicts"
                       % (len(sub.violations), ", ".join(forms_bad)))
     # (G) ---------------------------------------------------------------------------------------------
-    n = 150 if quick else 5000
-    gens = [("4004", "Dasm_Gen_4004.cfg", 11, "4004", "4004"), ("6800", "Dasm_Gen_6800.cfg", 13, "6800", "6800")]
-    with Phase("TLC: generate images"):
-        sims = pmap(lambda g: tlc.run("Dasm_Gen", g[1], workers=2 if quick else 4, simulate=n, depth=g[2], deadlock=True,
-                                      timeout=2400, mem="6g", tags=("BEH",)), gens, workers=2)
     images = []
+    # systematic opcode coverage images (every instruction variant of the tables at least once)
+    for (iname, cfgname), cr in zip(covs, covruns):
+        tlc.must(cr, "Dasm_Cover(%s)" % iname)
+        if cr.violation or any(t == "BAD" for (t, _) in cr.printed):
+            raise CheckError("Dasm_Cover(%s) produced an invalid coverage image: %s" % (iname, cr.violation or
+                             [x for (t, x) in cr.printed if t == "BAD"][:1]))
+        ids = set()
+        for (t, im) in cr.printed:
+            im["named_entry"] = False
+            images.append((im, iname, iname))
+            ids.update(i for i in im["ids"])
+        rep.model("Dasm_Cover(%s)" % iname, cr)
+        rep.part("Dasm_Cover(%s)" % iname, images=len(cr.printed), forms_covered=len(ids))
     for g, s in zip(gens, sims):
         tlc.must(s, "Dasm_Gen(%s)" % g[0])
         if s.violation:
@@ -286,8 +343,14 @@ def main(tier):
         rep.part("Dasm_Gen(%s)" % g[0], simulated_states=s.generated, valid_images=k, wall_s=s.wall)
     with Phase("round trip of %d images" % len(images)):
         def one(t):
-            c = Collector()
-            return c, judge_image(c, bld, t[0], t[1], t[2])
+            for attempt in (0, 1):
+                c = Collector()
+                try:
+                    return c, judge_image(c, bld, t[0], t[1], t[2])
+                except FileNotFoundError:      # shared build cache evicted by a concurrent run: rebuild once
+                    if attempt:
+                        raise
+                    build.get(bld.flavour)
         res0 = pmap(one, images)
         res = []
         for c, d in res0:
